@@ -50,6 +50,13 @@ Theorem C05_old_custom14_refuted :
   view_old (run_old [Compress Custom14 (dat 0 false) 64] (init cfg0)) Defaults (dat 0 false) <> view_old (init cfg0) Defaults (dat 0 false).
 Proof. exact old_custom14_history_dependent. Qed.
 
+(* the repaired tree still depends on the history in one way (listed finding threadsafe_leaves_bounds, replayed on the code by the
+   check): the thread-safe customize entry leaves its own bounds in the configuration a later defaults compression reads *)
+Theorem C05_threadsafe_leaves_bounds_refuted :
+  view (step_ts (init cfg0) 0 500 0 0 (dat 0 false) 64) Defaults (dat 0 false) <> view (init cfg0) Defaults (dat 0 false).
+Proof. exact threadsafe_leaves_bounds_history_dependent. Qed.
+Print Assumptions C05_threadsafe_leaves_bounds_refuted.
+
 Example C05_ex : ex (run [Compress Defaults (dat 7 true) 64; Decompress 0 1 64; Metadata 0] (init cfg0)) = {| optq := 1; x_cap := 64; x_rad := 32; szt := 8 |}
   /\ ex (run [Compress Custom14 (dat 7 true) 64; Decompress 0 1 64; Reinit] (init cfg0)) = derive cfg0 8.
 Proof. split; vm_compute; reflexivity. Qed.
